@@ -143,3 +143,30 @@ def c04(ctx, replay):
                assumptions=["the completion order is forced by releasing blocked ContainerLogs calls one at a time (20us apart); "
                             "a run whose calls did not all arrive is marked Unschedulable and not compared",
                             "tie order among equal timestamps of different containers is left open but must not vary between orders"])
+
+
+@prop("C02")
+def c02(ctx, replay):
+    def nontrivial(scns):
+        # distinct (inventory, selector) where the selector has at least one matcher
+        seen = set()
+        for sid, lines in scns:
+            i = json.loads(lines[0])["in"]
+            if i["sel"]:
+                seen.add(json.dumps([[(c["name"], c["labels"]) for c in i["ctrs"]], i["sel"]], sort_keys=True))
+        return len(seen)
+    inv = ["SelectionExact", "CasesWellFormed", "MatchersWellFormed"]
+    mcs = [dict(name="select2", module="MC_Select", consts=dict(MaxCtr=2, Pools=V.tla_str(T(ctx, "quick", "full"))), invariants=inv)]
+    if ctx.tier != "quick":
+        mcs.append(dict(name="select3", module="MC_Select", consts=dict(MaxCtr=3, Pools=V.tla_str("quick")), invariants=inv))
+    return std(ctx, "C02", mc=mcs, harness_cmd="docker", harness_opts=["mode=select"], trace_module="Trace_Select",
+               nrand=T(ctx, 1500, 30000), replay=replay, nontrivial=nontrivial, exhaustive=True, chunk_events=20000,
+               rule="step 1: fetchContainers/Match loop vs declarative Selected(inventory, matchers) over inventories of <=2 (full "
+                    "pools) and <=3 (reduced pools) containers (names a/ab/b, Docker label keys k, k.x, 1k, values '', a, ab) and "
+                    "selectors of 0..2 matchers over present/sanitised/absent labels x 4 operators x values/regexes, 3 time ranges "
+                    "(on/off second boundaries, instant); step 2/3: Engine.Eval over dockerlog.Querier and the fake daemon; the "
+                    "fake records which containers are opened with which options, TLC validates them and the labels of every "
+                    "entry; random driver: <=8 containers, <=3 Docker labels, <=3 matchers with generated regexes; non-trivial = "
+                    "distinct (inventory, non-empty selector)",
+               assumptions=["which value wins when two Docker keys sanitise to one name (or shadow a built-in) is left open: cases avoid it",
+                            "regexes are drawn from the algebra of Regex.tla; the rendering ReText is checked against the case by TLC"])
